@@ -330,7 +330,7 @@ theorem pairS_year (A : Astro) (lo hi : Int) (h : AstroOK A lo hi) (y : Int) (hl
   simp only [Bool.and_eq_true, Bool.or_eq_true, Bool.not_eq_true', List.isEmpty_eq_false_iff] at hs
   exact ⟨hs.1.1.1.1, hs.1.1.1.2, hs.1.1.2, hs.1.2, hs.2⟩
 
-theorem allAdj_get {α : Type} (f : α → α → Bool) : ∀ (l : List α), allAdj f l = true →
+theorem allAdj_get_nav {α : Type} (f : α → α → Bool) : ∀ (l : List α), allAdj f l = true →
     ∀ (i : Nat) (a b : α), l[i]? = some a → l[i + 1]? = some b → f a b = true
   | [], _, i, a, b, ha, _ => by simp at ha
   | [c], _, i, a, b, ha, hb => by simp at hb
@@ -343,7 +343,7 @@ theorem allAdj_get {α : Type} (f : α → α → Bool) : ∀ (l : List α), all
       exact h.1
     | succ i =>
       simp only [List.getElem?_cons_succ] at ha hb
-      exact allAdj_get f (d :: rest) h.2 i a b ha hb
+      exact allAdj_get_nav f (d :: rest) h.2 i a b ha hb
 
 theorem chain_own (Y : Int) : ∀ (ms : List MonthRec), allAdj chainF ms = true →
     ms.Pairwise (fun a b => a.year ≤ b.year) → allAdj chainF (monthsInYear ms Y) = true
@@ -422,7 +422,7 @@ theorem year_structure (A : Astro) (lo hi : Int) (h : AstroOK A lo hi) (y : Int)
   · intro r hr
     exact hs.days r ((fy_mem _ _ _).1 hr).1
   · intro i r q hr hq
-    have := allAdj_get chainF _ (chain_own y _ hc.chain (sortedY y _ hc)) i r q hr hq
+    have := allAdj_get_nav chainF _ (chain_own y _ hc.chain (sortedY y _ hc)) i r q hr hq
     exact ((chainF_iff r q).1 this).1
 
 /-- the month tables computed for neighbouring years agree on every month they share -/
@@ -717,7 +717,7 @@ theorem window (A : Astro) (ny : Int) (gm : GoodY A (ny - 1)) (g : GoodY A ny) (
     (ha : (A ny).months[i]? = some a) (hb : (A ny).months[i + 1]? = some b) :
     succMonth A a.year a.month = some (b.year, b.month) := by
   have hs := sortedY ny _ g.core
-  have hab : a.year ≤ b.year := ((chainF_iff a b).1 (allAdj_get chainF _ g.core.chain i a b ha hb)).2
+  have hab : a.year ≤ b.year := ((chainF_iff a b).1 (allAdj_get_nav chainF _ g.core.chain i a b ha hb)).2
   have ya := (g.core.recs a (List.mem_of_getElem? ha)).2.2.1
   have yb := (g.core.recs b (List.mem_of_getElem? hb)).2.2.1
   have bef := sorted_before _ hs i a ha
@@ -830,7 +830,7 @@ theorem succ_spec (A : Astro) (y : Int) (g : GoodY A y) (g' : GoodY A (y + 1)) (
     obtain ⟨bm, by_⟩ := (fy_mem _ _ _).1 (List.mem_of_getElem? hn)
     have hf := findMonth_self _ g.core.distinct b bm
     rw [by_] at hf
-    have hch := allAdj_get chainF _ (chain_own y _ g.core.chain (sortedY y _ g.core)) k r b hk hn
+    have hch := allAdj_get_nav chainF _ (chain_own y _ g.core.chain (sortedY y _ g.core)) k r b hk hn
     exact ⟨y, b.month, b, hs, hf, ((chainF_iff r b).1 hch).1, Or.inl rfl⟩
   | none =>
     rw [List.getElem?_eq_none_iff] at hn
